@@ -10,7 +10,7 @@ import seqmodel as sm
 import gradops_lib as gl
 
 ID = 'C18'
-GEN_SECTIONS = ['GenGradOps', 'FP_gradops18']
+GEN_SECTIONS = ['GenGradOps', 'FP_gradops18', 'FP_event_lib', 'FP_get_block']
 COQ_TARGETS = ['Props/C18.vo']
 EXTRACT_TARGETS = ['Extract/Ex_gradops.vo']
 RUNNER = 'gradops'
